@@ -441,6 +441,9 @@ func (pso *PubSubOwner) UnmarshalXML(d *xml.Decoder, start xml.StartElement) err
 				if err != nil {
 					return err
 				}
+			default:
+				// Unknown element: consume it entirely
+				err = d.Skip()
 			}
 			if err != nil {
 				return err
